@@ -1,2 +1,2 @@
 SPECIFICATION Spec
-INVARIANTS WellFormed Unambiguous Emit
+INVARIANTS WellFormed Unambiguous Redundant Emit
